@@ -15,9 +15,10 @@
    a NULL handle (no report) when the C function tests it before dereferencing it (gen_handle_<f>,
    read from the C text; Fault otherwise), Via c for a report through _vnacal_error / _vnadata_error.
 
+   The cells of an S matrix are parameter chains (LV.Err.RefutedModel.pchain): the parameter a handle names and,
+   through the vpmr_other pointers, its correlates, each with its own liveness and frequency range.
+
    Section variables (they stand for things outside this model and are ordinary premises):
-     valid h      _vnacal_get_parameter(vcp, h) != NULL and the frequency range of the parameter fits
-     unknown h    the parameter has type VNACAL_UNKNOWN
      work         the abstracted mutation of a call that passed its checks
      pre          an arbitrary write, used only for a function whose generated order is NOT checks-first *)
 Require Import String.
@@ -115,14 +116,12 @@ Record addargs : Type := mkadd {
   aa_b_rows : Z; aa_b_cols : Z;
   aa_s_rows : Z; aa_s_cols : Z;
   aa_map : option (list Z);         (* s_port_map: its first max(s_rows, s_columns) entries *)
-  aa_cells : list Z;                (* parameter handles of the given S cells *)
+  aa_cells : list pchain;           (* the parameters named by the given S cells, with their chains of correlates *)
   aa_a_singular : bool;             (* oracle: the 'a' matrix is singular at some frequency *)
   aa_s_incomplete : bool            (* oracle: some cell of the full S matrix stays unspecified *)
 }.
 
 Section NewChecks.
-  Variable valid : Z -> bool.       (* the handle names a live parameter whose range fits *)
-
   Definition check_add (s : nsum) (a : addargs) : outcome :=
     let t := v_type s in
     let fm_rows := v_rows s in let fm_cols := v_cols s in
@@ -149,7 +148,7 @@ Section NewChecks.
              | Some (ar, ac) => negb (ar =? (if is_ue14 t then 1 else b_cols)) || negb (ac =? b_cols)
              | None => false end) then usage1
     else if (match aa_map a with Some m => scan_map P m [] 0 | None => false end) then usage1
-    else if negb (forallb (check_parameter valid (v_params s)) (aa_cells a)) then usage1
+    else if negb (forallb (check_parameter (v_params s)) (aa_cells a)) then usage1
     else if (match aa_a a with Some _ => aa_a_singular a | None => false end) then Refuse VM1 (Via MATH)
     else if v_merror s && is_16 t && aa_s_incomplete a then usage1
     else Pass.
@@ -198,11 +197,11 @@ Inductive ncall : Type :=
 | NSetIter (n : Z)
 | NSolve (kernel : option category).
 
-Definition check_new_some (valid : Z -> bool) (s : nsum) (c : ncall) : outcome :=
+Definition check_new_some (s : nsum) (c : ncall) : outcome :=
   match c with
   | NSetFv fv rb => check_set_fv s fv rb
   | NSetZ0 => Pass
-  | NAdd a => check_add valid s a
+  | NAdd a => check_add s a
   | NSetMError e lo hi n fv nf tr s16 => check_set_m_error s e lo hi n fv nf tr s16
   | NSetPvalue x => check_set_pvalue x
   | NSetEtTol x | NSetPTol x => check_set_tolerance x
@@ -247,10 +246,10 @@ Definition ncall_ordered (c : ncall) : bool :=
 
 (* vnp == NULL: errno = EINVAL, -1, no report (None is the NULL pointer only; vnacal_new_solve does
    not test vn_magic, the others do: gen_handle_<f>) *)
-Definition check_new (valid : Z -> bool) (h : option nsum) (c : ncall) : outcome :=
+Definition check_new (h : option nsum) (c : ncall) : outcome :=
   match h with
   | None => if fst (ncall_handle c) then Refuse VM1 (Direct E_INVAL) else Fault
-  | Some s => check_new_some valid s c
+  | Some s => check_new_some s c
   end.
 
 (* the refusals that are not usage errors *)
@@ -272,15 +271,13 @@ Definition new_math_refusal (c : ncall) (r : report) : Prop :=
 Section NewStep.
   Variable payload : Type.
   Record nobj : Type := mknobj { no_sum : nsum; no_rest : payload }.
-  Variable valid : Z -> bool.
-  Variable unknown : Z -> bool.
   Variable work : nobj -> ncall -> nobj.       (* the abstracted mutation (copying vectors, linking ...) *)
   Variable pre : nobj -> nobj.
 
   Definition arg_check (c : ncall) (o : nobj) : option refusal :=
     match c with
     | NSolve _ => if negb (v_fvalid (no_sum o)) then Some (VM1, Via USAGE) else None
-    | _ => match check_new_some valid (no_sum o) c with Refuse v r => Some (v, r) | _ => None end
+    | _ => match check_new_some (no_sum o) c with Refuse v r => Some (v, r) | _ => None end
     end.
 
   Definition set_params (o : nobj) (p : newsum) : nobj :=
@@ -291,7 +288,7 @@ Section NewStep.
     match c with
     | NSolve (Some k) => (work o c, Some (VM1, Via k))
     | NAdd a =>
-        match add_standard_current valid unknown (v_params (no_sum o)) (aa_cells a) with
+        match add_standard_current (v_params (no_sum o)) (aa_cells a) with
         | (p', Refuse v r) => (set_params o p', Some (v, r))     (* goto out: what was registered stays *)
         | (p', _) => (work (set_params o p') c, None)
         end
